@@ -25,6 +25,7 @@ demo() {  # $1 = output binary
     tbb) g++ -std=c++11 -O1 -g -pthread -DRKCOMMON_TASKING_TBB -I$WT -I$WT/_build $OUT/$ID/demo.cpp $WT/_build/librkcommon.so -Wl,-rpath,$WT/_build -ltbb -o $1 2>/dev/null;;
     omp) g++ -std=c++11 -O1 -g -pthread -fopenmp -DRKCOMMON_TASKING_OMP -I$WT -I$WT/_build $OUT/$ID/demo.cpp $WT/_build/librkcommon.so -Wl,-rpath,$WT/_build -o $1 2>/dev/null;;
     gsond) g++ -std=c++11 -O1 -g -pthread -DNDEBUG -I$WT -I$WT/_build $OUT/$ID/demo.cpp $WT/_build/librkcommon.so -Wl,-rpath,$WT/_build -o $1 2>/dev/null;;
+    tsanomp) clang++ -std=c++11 -O1 -g -fsanitize=thread -DRKCOMMON_TASKING_OMP -I$WT -I$WT/_build $OUT/$ID/demo.cpp -lpthread -o $1 2>/dev/null;;
     tsan) clang++ -std=c++11 -g -O0 -fsanitize=thread -I$WT -I$WT/_build $OUT/$ID/demo.cpp $WT/_build/librkcommon.so -Wl,-rpath,$WT/_build -lpthread -o $1 2>/dev/null;;
   esac
 }
